@@ -1,10 +1,23 @@
 PROP = {
  "id": "C15",
- "specs": [],
- "functions": [],
+ "specs": [
+  "specs.features"
+ ],
+ "functions": [
+  "mouette.processing.features.FeatureEdgeDetector._add_sharp_angles_to_features",
+  "mouette.processing.features.FeatureEdgeDetector._add_hard_edges_to_features",
+  "mouette.processing.features.FeatureEdgeDetector._add_border_to_features"
+ ],
  "level": "other",
- "explanation": "No deductive obligation yet: the border walk depends on the rotational order contract of C01 (not proved) and the detector on attribute objects; decided only within the stated bound by the native run-time contract. This is NOT a proof.",
+ "explanation": "Under machine-checked contract: the three detection passes of FeatureEdgeDetector decide, for every mesh and every edge, exactly the stated set - _add_sharp_angles_to_features flags exactly the interior edges whose adjacent face normals have dot product < 0.5 (more than 60 degrees apart), _add_hard_edges_to_features exactly the declared (True) hard edges that are interior with dot product < 0.8, _add_border_to_features exactly the border edges, each adds nothing else, keeps earlier flags, and the first two add nothing when only_border is set. The adjacency answers (faces on either side of an edge, border classification) are those of property C01, named by uninterpreted functions; a sparse Attribute is modelled as the dict of its written entries (assumption A-attr, behaviour checked by the C05 stand-in). Border-cycle extraction, the border polyline index map and the derived containers of run() (sets, feature degrees, local indices, corner orders: Attribute objects, numpy angles) are decided only within the stated bound by the native run-time contract. That part is NOT a proof.",
  "trusted_base": [
+  "A1 CPython executes the parsed AST as pyvc models it",
+  "A3 z3 is sound",
+  "A-attr: a sparse Attribute behaves as the dict of its explicitly written entries (store, iteration over written keys, lookup); has_attribute / get_attribute look the name up in the attribute table",
+  "contract of geometry.dot (result == dot product; discharged under C07/C12): face normals are an abstract sort here and ndot names that value",
+  "C01 contracts: connectivity.edge_to_faces (valid face indices or None), is_edge_on_border; mesh.boundary_edges is the list of border edge indices",
+  "face normals are present for every face (precondition); declared hard-edge indices are valid edge indices (precondition)",
+  "separate parameters are separate objects (the flag attribute is not the hard-edge attribute)",
   "independent border / dihedral-angle computation from the raw face list (replay/C15.py)"
  ],
  "bounded": [
@@ -16,7 +29,7 @@ PROP = {
   }
  ],
  "not_decided": [
-  "everything beyond the bound"
+  "border cycles / border polyline / derived containers beyond the bound"
  ],
  "math": []
 }
